@@ -421,6 +421,56 @@ func census(repo string, pkgs []*packages.Package) {
 		return toDerefs[i].Func < toDerefs[j].Func
 	})
 	facts["census_to_derefs"] = toDerefs
+
+	// `append(f(...), ...)`: appending to a slice that a *call* returned.  When the callee hands out a package-level
+	// slice with spare capacity the append writes into an array shared by every goroutine of the process (finding F23:
+	// TransitionDb appended the custom precompile addresses to go-ethereum's `ActivePrecompiles(rules)`).  Each site is
+	// recorded with the callee; conversions, `make`, nested `append` and composite literals are fresh values and not listed.
+	var appendToCall []Site
+	for _, p := range pkgs {
+		for _, file := range p.Syntax {
+			fname := p.Fset.Position(file.Pos()).Filename
+			if isTest(fname) || strings.Contains(fname, ".pb.") || strings.Contains(fname, ".pulsar.") {
+				continue
+			}
+			r := rel(repo, fname)
+			walkWithFunc(file, func(n ast.Node, fun string) {
+				ce, ok := n.(*ast.CallExpr)
+				if !ok || len(ce.Args) == 0 {
+					return
+				}
+				if id, ok := ce.Fun.(*ast.Ident); !ok || id.Name != "append" {
+					return
+				}
+				if _, isBuiltin := p.TypesInfo.ObjectOf(ce.Fun.(*ast.Ident)).(*types.Builtin); !isBuiltin {
+					return
+				}
+				first, ok := ce.Args[0].(*ast.CallExpr)
+				if !ok {
+					return
+				}
+				if tv, ok := p.TypesInfo.Types[first.Fun]; ok && tv.IsType() {
+					return // a conversion
+				}
+				if id, ok := first.Fun.(*ast.Ident); ok {
+					if _, isBuiltin := p.TypesInfo.ObjectOf(id).(*types.Builtin); isBuiltin {
+						return // make / append / new
+					}
+				}
+				appendToCall = append(appendToCall, Site{r, 0, fun, exprFull(first.Fun)})
+			})
+		}
+	}
+	sort.Slice(appendToCall, func(i, j int) bool {
+		if appendToCall[i].File != appendToCall[j].File {
+			return appendToCall[i].File < appendToCall[j].File
+		}
+		if appendToCall[i].Func != appendToCall[j].Func {
+			return appendToCall[i].Func < appendToCall[j].Func
+		}
+		return appendToCall[i].What < appendToCall[j].What
+	})
+	facts["census_append_to_call"] = appendToCall
 }
 
 // bodyHasEffects: does the loop body do anything besides building a local collection?
